@@ -375,6 +375,8 @@ impl<'tcx> Cx<'tcx> {
     fn fn_ref(&self, env: TypingEnv<'tcx>, did: DefId, args: GenericArgsRef<'tcx>) -> J {
         let tcx = self.tcx;
         let mut o = vec![("def", js(self.path(did))), ("targs", self.targs(args))];
+        o.push(("def_local", J::B(did.is_local())));
+        o.push(("def_crate", js(tcx.crate_name(did.krate).to_string())));
         if let Some(tr) = tcx.trait_of_assoc(did) {
             o.push(("trait", js(self.path(tr))));
             o.push(("name", js(tcx.item_name(did).to_string())));
@@ -408,6 +410,7 @@ impl<'tcx> Cx<'tcx> {
                     o.push(("res_kind", js(kind)));
                     o.push(("res_targs", self.targs(inst.args)));
                     o.push(("res_local", J::B(rd.is_local())));
+                    o.push(("res_crate", js(tcx.crate_name(rd.krate).to_string())));
                 }
                 _ => {
                     o.push(("res", J::Null));
